@@ -12,6 +12,7 @@ RULE = ("compiled witness graphs from generate_graphs (rate ratios up to 1:12, w
         "generation, read at its start) for the automatic and 6 random admissible size/padding configurations; one evaluation = one "
         "(graph, buffer config, episode, starting step) execution or one static replay; non-trivial = >=1 connection with ring size >= 2 "
         "and >=1 wrap-around; distinct by spec digest x mode x config x episode x start")
+RULE += " Built later: a size below some reader's minimum must be refused."
 MIN_NONTRIVIAL = {"quick": 16, "thorough": 250}
 DECIDING = ["entries_checked", "static_reads_checked"]
 ASSUMPTIONS = ["entries that refer to producer steps skipped by a late start (starting_step > 0) are excluded: they were never emitted in that run",
